@@ -1,4 +1,5 @@
 import AwsVerif.Gen.UriFns
+import AwsVerif.Gen.ByteBufTables
 import AwsVerif.Proofs.C13.Coders
 import AwsVerif.Proofs.C13.Builder
 /-! Bridge between the hand-written model of uri.c and the layer generated from /repo's current source
@@ -70,5 +71,46 @@ theorem gen_estimate_covers_query (o : BuilderOptions) (hpar : o.params = none) 
   simp only [hpar]
   by_cases h1 : o.scheme.length ≠ 0 <;> by_cases h2 : o.port ≠ 0 <;> by_cases h3 : o.query.length ≠ 0 <;>
     simp [h1, h2, h3] <;> omega
+
+/-! ### byte_buf.c helpers under the parser and the decoder -/
+
+theorem gen_hexTable_all : ∀ x : UInt8, (hexToNum x == ByteBufTables.hexToNumTable.getD x.toNat 0) = true :=
+  forall_u8 _ (by decide)
+
+theorem gen_hex_enough (n : Nat) : UriFns.verif_bb_hex_enough n = decide (n ≥ 2) := by
+  unfold UriFns.verif_bb_hex_enough
+  by_cases h : n ≥ 2 <;> simp [h]
+
+theorem gen_hex_valid (hi lo : Nat) : UriFns.verif_bb_hex_valid hi lo = decide (hi ≠ 255 ∧ lo ≠ 255) := by
+  unfold UriFns.verif_bb_hex_valid
+  by_cases h : hi ≠ 255 ∧ lo ≠ 255 <;> simp [h]
+
+theorem gen_hex_value : ∀ hi lo : Fin 16,
+    UriFns.verif_bb_hex_value hi.val lo.val = (((UInt8.ofNat hi.val) <<< 4) ||| (UInt8.ofNat lo.val)).toNat := by
+  decide
+
+theorem gen_not_digit : ∀ v : Fin 256, UriFns.verif_bb_not_digit v.val 10 = decide (v.val ≥ 10) := by decide
+
+theorem gen_reserve_noop (r c : Nat) : UriFns.verif_bb_reserve_noop r c = decide (r ≤ c) := by
+  unfold UriFns.verif_bb_reserve_noop
+  by_cases h : r ≤ c <;> simp [h]
+
+/-- the guard of `aws_byte_buf_append` (generated for C01) is the test `appendBounded` makes -/
+theorem gen_append_guard (cap : Nat) (buf x : Bytes) (h1 : buf.length ≤ cap) (h2 : cap < 2 ^ 64) :
+    appendBounded cap buf x = if ByteBufFns.verif_guard_buf_append cap buf.length x.length then buf else buf ++ x := by
+  unfold appendBounded ByteBufFns.verif_guard_buf_append
+  have e : (cap + 18446744073709551616 - buf.length) % 18446744073709551616 = cap - buf.length := by omega
+  rw [e]
+  by_cases h : cap - buf.length < x.length <;> simp [h]
+
+/-- `aws_byte_cursor_advance` does not refuse an advance within the cursor (sizes up to SIZE_MAX/2): the
+parser's `Parser.advance` is only used that way -/
+theorem gen_advance_guard (len n : Nat) (h1 : n ≤ len) (h2 : len ≤ 9223372036854775807) :
+    ByteBufFns.verif_guard_cursor_advance len n = false := by
+  unfold ByteBufFns.verif_guard_cursor_advance
+  have a : ¬ len > 9223372036854775807 := by omega
+  have b : ¬ n > 9223372036854775807 := by omega
+  have c : ¬ n > len := by omega
+  simp [a, b, c]
 
 end AwsVerif.Uri
